@@ -21,6 +21,9 @@ from common import clause_map  # noqa: E402
 
 BUILD = os.path.join(VERIF, "build")
 SELFTEST = bool(os.environ.get("VERIF_SELFTEST"))
+ONLY = os.environ.get("VERIF_ONLY")  # debugging aid: regex over target names (evidence goes to the selftest directory, never to evidence/)
+if ONLY:
+    SELFTEST = True
 EVDIR = os.path.join(BUILD, "selftest-out", str(os.getpid())) if SELFTEST else os.path.join(VERIF, "evidence")
 RPDIR = os.path.join(BUILD, "selftest-out", str(os.getpid())) if SELFTEST else os.path.join(VERIF, "replays")
 STUBS = os.path.join(VERIF, "stubs")
@@ -229,6 +232,8 @@ def run_property(prop, tier, builders, seed=0, replay_fn=None, known=None, level
         for kb, (cpath, obj, text) in zip(kbs, comp):
             cmaps[kb.kernel] = clause_map(text)
             for t in kb.targets:
+                if ONLY and not re.search(ONLY, t.name):
+                    continue
                 jobsl.append((kb, t, obj, os.path.join(work, kb.kernel)))
     except chai2c.ExtractionBreak as e:
         print("EXTRACTION-BREAK property=%s: %s" % (prop, e))
